@@ -147,6 +147,16 @@ def gen_cases(rng, tier):
             spec = G.ser_msg(mt2, hdr, body, [])
             cs.append(Case(px + "RT s " + spec, "rt-flat"))
             cs.append(Case(px + "HYP " + spec, "hypotheses"))
+        # messages with repeating groups in the body (any depth), flat header, no Length field at message level,
+        # no trailer field: the domain of theorem c01_roundtrip_groups_partial -- RT plus its hypotheses (HYP)
+        grp = G.MsgGen(meta, rng, p_opt=0.35, max_elems=3, no_pairs=True)
+        ggood = [mt for mt in good if meta.groups.get(mt)]
+        for mt in ggood * (2 if thorough else 1) + [rng.choice(ggood) for _ in range(300 if thorough else 80)]:
+            mt2, hdr, body, trl = grp.message(mt, max_wire=5000)
+            hdr = flat.part("header", p_opt=0.2)
+            spec = G.ser_msg(mt2, hdr, body, [])
+            cs.append(Case(px + "RT s " + spec, "rt-groups-domain"))
+            cs.append(Case(px + "HYP " + spec, "hypotheses-groups"))
         # negative ints and the int extremes (F01, fixed in /repo a8219b1: fast_atoi handles the sign;
         # before the fix "-5" decoded as -25 and, under UBSan, trapped on the negative shift)
         k = 0
